@@ -53,7 +53,7 @@ type c03Query struct {
 	Note     string
 }
 
-var c03Healthy = []string{"ok", "nx", "rc9", "servfail", "empty", "ok-n6", "ok-opt"}
+var c03Healthy = []string{"ok", "nx", "rc9", "servfail", "empty", "ok-n6", "ok-opt", "ok-n40"}
 var c03Failing = []string{"silent", "garbage", "close", "rst", "half", "http500"}
 
 func c03RandCase(r *gen.R, s string) string {
